@@ -54,7 +54,7 @@ def impl_fn(case):
         m = impl.build_uni(case)
         m.load_patient_data(uni_table(case))
     q0 = lambda mm: (mm.likelihood(), mm.diagnosis_matrix(case["query_t"]), mm.data_matrix(case["query_t"]))  # noqa: E731
-    impl.run_primes(m, case, q0, [impl.prime_with_flipped_kinds, impl.prime_params, impl.prime_modality_order])
+    impl.run_primes(m, case, q0, [impl.prime_with_flipped_kinds, impl.prime_params, impl.prime_modality_order, impl.prime_renamed_modalities])
     out = {}
     def call(key, fn):
         try:
